@@ -46,22 +46,45 @@ ASSUMPTIONS = suite.ENGINE_ASSUMPTIONS + [
 ]
 
 
-def _pause_resume(env: Env, out: Outcome, n: int, corpus: list[dict]) -> None:
-    rng = random.Random(env.rng.randrange(1 << 30))
+def _buffers(state) -> dict:
+    """{(step, buffer id): [(type id, uid), ...]} of the non-empty collect_events buffers of a broker state"""
+    from ..engine import evtypes as ET
+    res = {}
+    for nm, ws in state.workers.items():
+        for b, evs in ws.collected_events.items():
+            if evs:
+                res[(nm, b)] = [(ET.TY_ID.get(type(e), -1), getattr(e, "uid", None)) for e in evs]
+    return res
+
+
+def _pause_resume(env: Env, out: Outcome, n: int, corpus: list[dict] | None, n_join: int = 0) -> None:
+    """corpus is not None: the replayed case and the corpus cases only (first thing of the run; draws nothing from env.rng);
+    corpus is None: the generated families"""
+    seed0 = env.rng.randrange(1 << 30) if corpus is None else 0
+    rng = random.Random(seed0)
     jobs = []
-    if env.replay is not None and isinstance(env.replay.get("payload", {}).get("case"), dict) and "pause" in env.replay["payload"]["case"]:
+    if corpus is not None and env.replay is not None and isinstance(env.replay.get("payload", {}).get("case"), dict) and "pause" in env.replay["payload"]["case"]:
         c = env.replay["payload"]["case"]["pause"]
         jobs.append((c["spec"], c["seed"], c.get("actions1"), c.get("actions2")))
-    for item in corpus:
+    for item in corpus or []:
         if "pause" in item:
             c = item["pause"]
             jobs.append((c["spec"], c["seed"], c.get("actions1"), c.get("actions2")))
     for _ in range(n):
         spec = specgen.gen_det_spec(rng, delays=rng.random() < 0.25)
         jobs.append((spec, rng.randrange(1 << 30), None, None))
+    # join steps that collect events they built themselves (types the collecting step does not accept, a subclass of an accepted
+    # type, a mix): own generator stream, so the family above is what it was
+    rng_j = random.Random(seed0 ^ 0x0C12)
+    for _ in range(n_join):
+        spec = specgen.gen_det_join_spec(rng_j, delays=rng_j.random() < 0.2)
+        jobs.append((spec, rng_j.randrange(1 << 30), None, None, rng_j.randint(0, 9)))
     resumed: list = []
-    for spec, seed, a1, a2 in jobs:
-        base = live.run_spec(copy.deepcopy(spec), seed=seed + 17)
+    for spec, seed, a1, a2, *more in jobs:
+        # the uninterrupted run: the same workflow without the pause (corpus / replay cases carry their snapshot_stop in the spec)
+        base_spec = copy.deepcopy(spec)
+        base_spec["externals"] = [e for e in spec.get("externals", []) if e.get("op") != "snapshot_stop"]
+        base = live.run_spec(base_spec, seed=seed + 17)
         out.evaluations += 1
         if base.outcome[0] != "result":
             out.count("pause:baseline:" + base.outcome[0])
@@ -69,7 +92,7 @@ def _pause_resume(env: Env, out: Outcome, n: int, corpus: list[dict]) -> None:
         want = (repr(getattr(base.outcome[1], "result", base.outcome[1])), base.final_store)  # type: ignore[attr-defined]
         spec1 = copy.deepcopy(spec)
         if a1 is None:
-            spec1["externals"] = [{"op": "snapshot_stop", "after_quiet": rng.randint(0, 7)}]
+            spec1["externals"] = [{"op": "snapshot_stop", "after_quiet": more[0] if more else rng.randint(0, 7)}]
         else:
             spec1["externals"] = [e for e in spec.get("externals", [])] or [{"op": "snapshot_stop", "after_quiet": 0}]
         tr1 = live.run_spec(spec1, seed=seed, replay_actions=a1)
@@ -97,6 +120,27 @@ def _pause_resume(env: Env, out: Outcome, n: int, corpus: list[dict]) -> None:
         resumed.append(tr2)
         case = {"pause": {"spec": spec1, "seed": seed, "actions1": tr1.actions, "actions2": tr2.actions}}
         out.count("pause:resumed")
+        # collecting snapshot points: what the steps had buffered through ctx.collect_events when the context was serialised
+        # (the live broker state behind the snapshot) is what the context restored from the JSON holds -- whatever the event types
+        live_buf = _buffers(live_state) if live_state is not None else {}
+        accepts = {sd["name"]: set(sd["accepts"]) for sd in spec["steps"]}
+        foreign = sorted({t for (nm, _b), evs in live_buf.items() for t, _u in evs if t not in accepts.get(nm, set())})
+        out.count("pause:buffered:" + ("none" if not live_buf else "foreign_types" if foreign else "own_types"))
+        first2 = next((c for c in tr2.calls if c.before is not None), None)
+        if live_state is not None and first2 is not None:
+            got_buf = _buffers(first2.before)
+            if got_buf != live_buf:
+                lost = {f"{nm}/{b}": [e for e in evs if e not in got_buf.get((nm, b), [])] for (nm, b), evs in live_buf.items()}
+                lost = {kk: v for kk, v in lost.items() if v}
+                extra = {f"{nm}/{b}": [e for e in evs if e not in live_buf.get((nm, b), [])] for (nm, b), evs in got_buf.items()}
+                extra = {kk: v for kk, v in extra.items() if v}
+                kind = "lost" if lost and not extra else "added" if extra and not lost else "changed"
+                out.violations.append(Violation(
+                    f"C12/collect_buffer_{kind}_on_resume:" + ("foreign_event_types" if foreign else "accepted_event_types"),
+                    f"collect_events buffers (step/buffer: [(type id, uid)]) when the context was serialised: "
+                    f"{ {f'{a}/{b}': v for (a, b), v in live_buf.items()} }; in the context restored from it: "
+                    f"{ {f'{a}/{b}': v for (a, b), v in got_buf.items()} }; lost {lost}, not there before {extra}; "
+                    f"types accepted by the collecting step(s): { {nm: sorted(accepts.get(nm, [])) for (nm, _b) in live_buf} }", case))
         out.count(f"pause:inprog:{min(len(inprog), 3)}")
         out.count("pause:timers" if pending_timers else "pause:no_timers")
         out.count("pause:resumed_outcome:" + tr2.outcome[0])
@@ -139,14 +183,16 @@ def _pause_resume(env: Env, out: Outcome, n: int, corpus: list[dict]) -> None:
 def run(env: Env) -> Outcome:
     out = Outcome()
     out.rule = ("serde: generated broker states, two round trips; pause: deterministic fan-out/collect workflows with retries (25% with retry delays), "
-                "snapshot_stop at a random quiet point, resume from JSON; non-trivial = the run was actually paused; distinct by (spec, schedule); "
+                "snapshot_stop at a random quiet point, resume from JSON; plus fan-out/join workflows whose join step collects events it derived from its input "
+                "(types it does not accept / a subclass / mixed; default or named buffer); non-trivial = the run was actually paused; distinct by (spec, schedule); "
                 "payload: raw current-format / V0 dicts (omitted fields, legacy requirements, unknown steps, waiting ids, version markers 1/0/2/none, ~5% malformed), "
                 "non-trivial = something pending, buffered or waiting was loaded; todict: generated states (40% with a backlog) through to_dict -> JSON -> from_dict -> rewind; "
                 "parked: sequential ask/reply workflows, snapshot at the first quiet point(s), non-trivial = snapshot while waiting with nothing in flight")
     corpus = suite.load_corpus("C12")
+    _pause_resume(env, out, 0, corpus)  # the replayed case and the hand-picked ones first
     suite.serde_corr(env, out, env.budget(1500, 30000), stability_sig="C12/roundtrip_not_stable")
     suite.direct_corr(env, out, env.budget(800, 16000))
-    _pause_resume(env, out, env.budget(160, 3200), corpus)
+    _pause_resume(env, out, env.budget(160, 3200), None, env.budget(60, 1200))
     # runs snapshotted while invocations are suspended in wait_for_event (several waiters of one step, requirements that do not
     # survive serialisation): every such invocation is re-registered on resume (shared with C10's resume family)
     from .c10 import _resume_runs as _wait_resume
